@@ -274,6 +274,13 @@ def operand_kinds(rng):
                    ('np_i32_0', np.int32(0)), ('np_c128_0', np.complex128(0)),
                    ('np_bool0', np.bool_(False))]:
         ops.append((lab, v))
+    # tiny / huge but non-zero divisors must be divided by, not treated as 0
+    for lab, v in [('np_f64_tiny', np.float64(3e-12)), ('py_float_tiny', -2e-9)]:
+        ops.append((lab, v))
+    for shp in [(3,), (2, 3)]:
+        mag = 10.0 ** rng.uniform(-200, -6, size=shp) * rng.choice([-1, 1], size=shp)
+        mag.flat[0] = 0.0
+        ops.append((f"nd_float64tiny_{'x'.join(map(str, shp))}", mag))
     for dt in ['float64', 'float32', 'int64', 'int32', 'int16', 'uint8',
                'complex128', 'bool']:
         for shp in [(), (3,), (2, 3), (1, 3), (2, 1), (2, 2, 3)]:
@@ -324,7 +331,7 @@ def run_safe_division(spec, res):
             bad = "non-finite"
         elif np.any(c[B == 0] != 0):
             bad = "non-zero where divisor is zero"
-        elif np.abs(c - want).max(initial=0) > 1e-6 * max(np.abs(want).max(initial=0), 1e-300):
+        elif not np.all(np.abs(c - want) <= 1e-6 * np.abs(want) + 1e-300):
             bad = "wrong quotient"
         elif not (np.array_equal(acopy, a) and np.array_equal(bcopy, b)):
             bad = "operand modified"
